@@ -1,7 +1,7 @@
 (* Prop_C07.v — property C07 (nitrogen pools stay non-negative, organic/fertiliser bookkeeping is exact),
    stated about NitroModel read over the reals. *)
 From Coq Require Import ZArith Reals List Bool Lra.
-From Hermes Require Import Num RUtil NitroModel NitroProofs NitroRun.
+From Hermes Require Import Num RUtil NitroModel NitroProofs NitroRun NitroRates.
 Local Open Scope R_scope.
 
 (* what mineralisation removes from an organic pool is exactly what its counter gains (both temperature
@@ -23,6 +23,19 @@ Theorem C07_pools_nonneg : forall z (l : mineral_layer_in (T:=R)) (g : mineral_g
   0 <= 4000000000 * ml_e0 l <= 1 -> 0 <= 5600000000000 * ml_e1 l <= 1 ->
   let '(o, g') := mineral_layer z l g in 0 <= mo_naos o /\ 0 <= mo_nfos o.
 Proof. exact mineral_layer_nonneg. Qed.
+
+(* ... and that hypothesis holds for the TRUE exponential at every soil temperature up to 60 degC (the oracle values
+   are exp(-8400/(T+273.16)) and exp(-9800/(T+273.16)), nitro.go:600-602; C19 keeps the soil temperature inside the
+   air/surface extremes); at 65 degC the fast pool's constant exceeds 1 *)
+Theorem C07_pools_nonneg_true_exp : forall z (l : mineral_layer_in (T:=R)) (g : mineral_glob (T:=R)),
+  0 <= ml_naos l -> 0 <= ml_nfos l ->
+  -273 < ml_tempbo l -> ml_tempbo l <= 60 ->
+  ml_e0 l = exp (-8400 / (ml_tempbo l + 273.16)) -> ml_e1 l = exp (-9800 / (ml_tempbo l + 273.16)) ->
+  let '(o, g') := mineral_layer z l g in 0 <= mo_naos o /\ 0 <= mo_nfos o.
+Proof. exact pools_nonneg_true_exp. Qed.
+
+Theorem C07_rate_above_one_at_65 : 1 < 5600000000000 * exp (-9800 / (65 + 273.16)).
+Proof. exact kt1_true_gt_1_at_65. Qed.
 
 (* dissolved fertiliser moves towards, and never beyond, fertiliser applied (warm branch: MIRED is clamped to [0,1]) *)
 Theorem C07_dissolved_le_applied : forall z (l : mineral_layer_in (T:=R)) (g : mineral_glob (T:=R)),
@@ -75,6 +88,8 @@ Proof. exact mix_pool_conserves. Qed.
 Print Assumptions C07_mineral_books.
 Print Assumptions C07_tillage_mixing_conserves.
 Print Assumptions C07_pools_nonneg.
+Print Assumptions C07_pools_nonneg_true_exp.
+Print Assumptions C07_rate_above_one_at_65.
 Print Assumptions C07_dissolved_le_applied.
 Print Assumptions C07_dissolved_le_applied_frozen.
 Print Assumptions C07_dissolved_le_applied_run.
